@@ -111,6 +111,8 @@ class BinningBase:
 
     def __getitem__(self, index: Union[slice, int]):
         if isinstance(index, slice):
+            if index.step is not None and index.step < 0:
+                raise ValueError("Cannot change the order of bins")
             new_binning = self.as_static()
             new_binning._bins = new_binning.bins[index]
             return new_binning
@@ -413,6 +415,8 @@ class StaticBinning(BinningBase):
         )
 
     def __getitem__(self, item):
+        if isinstance(item, slice) and item.step is not None and item.step < 0:
+            raise ValueError("Cannot change the order of bins")
         copy = self.copy()
         copy._bins = self._bins[item]
         # TODO: check for the right_edge??
